@@ -109,6 +109,25 @@ def run(S, tier, rep):
            "penalised-velocity update differs from the forcing update applied to (u_pen - u): got %s" % short(pen2["vorticity_field"]) if not ok else "",
            key="C12.penalised_is_forcing|2d|%s" % short(pen2["vorticity_field"], 200))
 
+    # the identities are claimed "at every cell whose stencils do not touch the boundary ring": the inner operator of each
+    # composition must therefore carry its interior formula on ALL of Interior(1) (ghost-zone reset exactly one ring wide, no
+    # other cell of the interior overwritten).  Decided by the region rule of C13 on the kernels used above.
+    from ..report import Report
+    from .c13 import check_entry
+    from .common import CATALOGUE
+    used = ("gen_curl_pyst_kernel_3d", "gen_divergence_pyst_kernel_3d", "gen_outplane_field_curl_pyst_kernel_2d", "gen_inplane_field_curl_pyst_kernel_2d",
+            "gen_update_vorticity_from_velocity_forcing_pyst_kernel_2d", "gen_update_vorticity_from_velocity_forcing_pyst_kernel_3d",
+            "gen_update_vorticity_from_penalised_velocity_pyst_kernel_2d", "gen_update_vorticity_from_penalised_velocity_pyst_kernel_3d")
+    tmp = Report("C12", "other")
+    for e in CATALOGUE:
+        if e.gen in used:
+            check_entry(S, e, tmp, pid="C12", rules=("a", "b"))
+    for o in tmp.obligations:
+        o = dict(o, rule="C12.region", nontrivial=False)
+        if "key" in o:
+            o["key"] = "C12.region|" + o["key"]
+        rep.obligations.append(o)
+    rep.require_min("C12.region", 20)
     # the divergence monitor and the routing of the rotational-form transport (3D simulator trace)
     from .simtools import sim3d_monitor_facts
     for rule, inst, ok, detail, key in sim3d_monitor_facts(S):
